@@ -36,8 +36,8 @@ theorem eqList_trans_tuple (num : Bool) (xs : List Val) : ∀ ys zs : List Val,
           | _ => simp [tupleElemOk] at hy
         | _ => simp [tupleElemOk] at hx
 
-theorem eqD_cons_inv (ok : EnvOk env) {k k' : Atom} {v w : Val} {xs ys : List (Atom × Val)}
-    (hx : ascKeys env ((k, v) :: xs) = true) (hy : ascKeys env ((k', w) :: ys) = true)
+theorem eqD_cons_inv (ok : EnvOk env) {sh : Option (List Atom)} {k k' : Atom} {v w : Val} {xs ys : List (Atom × Val)}
+    (hx : keysOk env sh ((k, v) :: xs) = true) (hy : keysOk env sh ((k', w) :: ys) = true)
     (h : eqD ((k, v) :: xs) ((k', w) :: ys) = true) :
     atomEq k k' = true ∧ eq v w = true ∧ eqD xs ys = true := by
   cases hk : atomEq k k'
@@ -82,7 +82,7 @@ mutual
         | dict u zs =>
           rw [eq_dict] at h1 h2 ⊢
           simp only [comparable, Bool.and_eq_true] at hx hy hz
-          exact eqD_trans ok num xs ys zs hx.1 hx.2 hy.1 hy.2 hz.1 hz.2 h1 h2
+          exact eqD_trans ok num none xs ys zs hx.1 hx.2 hy.1 hy.2 hz.1 hz.2 h1 h2
         | _ => simp [eq] at h2
       | _ => simp [eq] at h1
     | obj c xs =>
@@ -92,7 +92,10 @@ mutual
           rw [eq_obj] at h1 h2 ⊢
           simp only [Bool.and_eq_true, beq_iff_eq] at h1 h2 ⊢
           simp only [comparable, Bool.and_eq_true] at hx hy hz
-          exact ⟨h1.1.trans h2.1, eqD_trans ok num xs ys zs hx.1 hx.2 hy.1 hy.2 hz.1 hz.2 h1.2 h2.2⟩
+          obtain ⟨hcd, g1⟩ := h1
+          obtain ⟨hde, g2⟩ := h2
+          subst hcd; subst hde
+          exact ⟨rfl, eqD_trans ok num (some (env.fields c)) xs ys zs hx.1 hx.2 hy.1 hy.2 hz.1 hz.2 g1 g2⟩
         | _ => simp [eq] at h2
       | _ => simp [eq] at h1
   termination_by structural x
@@ -118,10 +121,10 @@ mutual
           exact ⟨eq_trans ok num x y z hx.1 hy.1 hz.1 h1.1 h2.1,
                  eqList_trans ok num xs ys zs hx.2 hy.2 hz.2 h1.2 h2.2⟩
   termination_by structural xs
-  theorem eqD_trans (ok : EnvOk env) (num : Bool) (xs : List (Atom × Val)) : ∀ ys zs : List (Atom × Val),
-      ascKeys env xs = true → comparableItems env num xs = true →
-      ascKeys env ys = true → comparableItems env num ys = true →
-      ascKeys env zs = true → comparableItems env num zs = true →
+  theorem eqD_trans (ok : EnvOk env) (num : Bool) (sh : Option (List Atom)) (xs : List (Atom × Val)) : ∀ ys zs : List (Atom × Val),
+      keysOk env sh xs = true → comparableItems env num xs = true →
+      keysOk env sh ys = true → comparableItems env num ys = true →
+      keysOk env sh zs = true → comparableItems env num zs = true →
       eqD xs ys = true → eqD ys zs = true → eqD xs zs = true := by
     intro ys zs ax hx ay hy az hz h1 h2
     cases xs with
@@ -144,9 +147,425 @@ mutual
           obtain ⟨f1, f2, f3⟩ := eqD_cons_inv ok ay az h2
           rw [eqD_cons_eq ok ax az (atomEq_trans e1 f1),
             eq_trans ok num v w u hx.1 hy.1 hz.1 e2 f2,
-            eqD_trans ok num xs ys zs (ascKeys_cons ax).2 hx.2 (ascKeys_cons ay).2 hy.2
-              (ascKeys_cons az).2 hz.2 e3 f3]
+            eqD_trans ok num (shTail sh) xs ys zs (keysOk_tail ax) hx.2 (keysOk_tail ay) hy.2
+              (keysOk_tail az) hz.2 e3 f3]
           rfl
+  termination_by structural xs
+end
+
+end Pg.C06
+
+namespace Pg.C06
+variable {env : Env}
+
+/-! ### Congruence of `eq`, determinism of `Tri` -/
+
+theorem eq_congr_left (ok : EnvOk env) (num : Bool) {x y : Val} (z : Val)
+    (hx : comparable env num x = true) (hy : comparable env num y = true)
+    (hz : comparable env num z = true) (h : eq x y = true) : eq x z = eq y z := by
+  have hyx : eq y x = true := by rw [(tri ok num x y hx hy).2]; exact h
+  cases h1 : eq x z <;> cases h2 : eq y z <;> try rfl
+  · rw [eq_trans ok num x y z hx hy hz h h2] at h1; cases h1
+  · rw [eq_trans ok num y x z hy hx hz hyx h1] at h2; cases h2
+
+theorem eq_congr_right (ok : EnvOk env) (num : Bool) (x : Val) {y z : Val}
+    (hx : comparable env num x = true) (hy : comparable env num y = true)
+    (hz : comparable env num z = true) (h : eq y z = true) : eq x y = eq x z := by
+  rw [← (tri ok num x y hx hy).2, ← (tri ok num x z hx hz).2]
+  exact eq_congr_left ok num x hy hz hx h
+
+theorem Tri.det {a a' b : Except Err Bool} {e : Bool} (h1 : Tri a e b) (h2 : Tri a' e b) : a = a' := by
+  rcases h1 with ⟨p1, p2, p3⟩ | ⟨p1, p2, p3⟩ | ⟨p1, p2, p3⟩ <;>
+    rcases h2 with ⟨q1, q2, q3⟩ | ⟨q1, q2, q3⟩ | ⟨q1, q2, q3⟩ <;> simp_all
+
+theorem atomEq_congr_left {a b : Atom} (c : Atom) (h : atomEq a b = true) : atomEq a c = atomEq b c := by
+  have hba : atomEq b a = true := by rw [atomEq_symm]; exact h
+  cases h1 : atomEq a c <;> cases h2 : atomEq b c <;> try rfl
+  · rw [atomEq_trans h h2] at h1; cases h1
+  · rw [atomEq_trans hba h1] at h2; cases h2
+
+theorem atomEq_congr_right (c : Atom) {a b : Atom} (h : atomEq a b = true) : atomEq c a = atomEq c b := by
+  rw [atomEq_symm c a, atomEq_symm c b]; exact atomEq_congr_left c h
+
+theorem comparable_of_tupleElem {num : Bool} {x : Val} (h : tupleElemOk num x = true) :
+    comparable env num x = true := by
+  cases x with
+  | atom a => rfl
+  | _ => simp [tupleElemOk] at h
+
+theorem comparableList_of_tuple {num : Bool} (xs : List Val) (h : xs.all (tupleElemOk num) = true) :
+    comparableList env num xs = true := by
+  induction xs with
+  | nil => rfl
+  | cons x xs ih =>
+    simp only [List.all_cons, Bool.and_eq_true] at h
+    simp [comparableList, comparable_of_tupleElem h.1, ih h.2]
+
+/-- On tuples of numbers (or of strings) the native `<` coincides with the symbolic list order. -/
+theorem pySeqLt_eq_ltList (num : Bool) (xs : List Val) : ∀ ys : List Val,
+    xs.all (tupleElemOk num) = true → ys.all (tupleElemOk num) = true →
+    pySeqLt xs ys = ltList env xs ys := by
+  induction xs with
+  | nil => intro ys _ _; cases ys <;> rfl
+  | cons x xs ih =>
+    intro ys hx hy
+    cases ys with
+    | nil => rfl
+    | cons y ys =>
+      simp only [List.all_cons, Bool.and_eq_true] at hx hy
+      simp only [pySeqLt, ltList, ih ys hx.2 hy.2]
+      have : pyLt x y = lt env x y := by
+        cases x with
+        | atom a => cases y with
+          | atom b =>
+            cases num
+            · cases a <;> simp [tupleElemOk] at hx
+              cases b <;> simp [tupleElemOk] at hy
+              rw [atomLt_eq_lt, atomLt, rankCmp_same (by rfl)]; rfl
+            · cases a <;> simp [tupleElemOk] at hx
+              cases b <;> simp [tupleElemOk] at hy
+              rw [atomLt_eq_lt, atomLt, rankCmp_same (by rfl)]; rfl
+          | _ => simp [tupleElemOk] at hy
+        | _ => simp [tupleElemOk] at hx
+      rw [this]
+
+/-! ### `lt` respects `eq` in its left argument -/
+
+mutual
+  theorem lt_congr_left (ok : EnvOk env) (num : Bool) (x : Val) : ∀ y z : Val,
+      comparable env num x = true → comparable env num y = true → comparable env num z = true →
+      eq x y = true → lt env x z = lt env y z := by
+    intro y z hx hy hz h
+    have hk := eq_kind h
+    by_cases hkz : kindOf x = kindOf z
+    · have hkz' : kindOf y = kindOf z := hk ▸ hkz
+      cases x with
+      | atom a =>
+        cases y with
+        | atom b => cases z with
+          | atom c =>
+            rw [atomLt_eq_lt, atomLt_eq_lt]
+            exact atomLt_congr_left c (by simpa [eq] using h)
+          | _ => cases a <;> simp [kindOf, atomKind] at hkz
+        | _ => simp [eq] at h
+      | list s xs =>
+        cases y with
+        | list t ys => cases z with
+          | list u zs =>
+            simp only [lt, rankCmp_same hkz, rankCmp_same hkz']
+            simp only [comparable] at hx hy hz
+            exact ltList_congr_left ok num xs ys zs hx hy hz (by simpa [eq] using h)
+          | atom c => cases c <;> simp [kindOf, atomKind] at hkz
+          | _ => simp [kindOf] at hkz
+        | _ => simp [eq] at h
+      | tuple xs =>
+        cases y with
+        | tuple ys => cases z with
+          | tuple zs =>
+            simp only [lt, rankCmp_same hkz, rankCmp_same hkz']
+            simp only [comparable] at hx hy hz
+            rw [pySeqLt_eq_ltList (env := env) num xs zs hx hz, pySeqLt_eq_ltList (env := env) num ys zs hy hz]
+            exact ltList_congr_left ok num xs ys zs (comparableList_of_tuple xs hx)
+              (comparableList_of_tuple ys hy) (comparableList_of_tuple zs hz) (by simpa [eq] using h)
+          | atom c => cases c <;> simp [kindOf, atomKind] at hkz
+          | _ => simp [kindOf] at hkz
+        | _ => simp [eq] at h
+      | dict s xs =>
+        cases y with
+        | dict t ys => cases z with
+          | dict u zs =>
+            simp only [lt, rankCmp_same hkz, rankCmp_same hkz']
+            simp only [comparable, Bool.and_eq_true] at hx hy hz
+            rw [eq_dict] at h
+            exact ltItems_congr_left ok num none xs ys zs hx.1 hx.2 hy.1 hy.2 hz.2 h
+          | atom c => cases c <;> simp [kindOf, atomKind] at hkz
+          | _ => simp [kindOf] at hkz
+        | _ => simp [eq] at h
+      | obj c xs =>
+        cases y with
+        | obj d ys => cases z with
+          | obj e zs =>
+            rw [eq_obj] at h
+            simp only [Bool.and_eq_true, beq_iff_eq] at h
+            have hcd : c = d := h.1
+            have hce : c = e := by simpa [kindOf] using hkz
+            subst hcd; subst hce
+            simp only [lt, rankCmp_same hkz, rankCmp_same hkz', if_true]
+            simp only [comparable, Bool.and_eq_true] at hx hy hz
+            exact ltItems_congr_left ok num (some (env.fields c)) xs ys zs hx.1 hx.2 hy.1 hy.2 hz.2 h.2
+          | _ => simp [kindOf] at hkz
+        | _ => simp [eq] at h
+    · have hkz' : kindOf y ≠ kindOf z := hk ▸ hkz
+      obtain ⟨h1, _⟩ := rankCmp_diff ok hkz
+      obtain ⟨h2, _⟩ := rankCmp_diff ok hkz'
+      rw [lt_of_rankCmp h1, lt_of_rankCmp h2, rank_eq_kind env x, rank_eq_kind env y, hk]
+  termination_by structural x
+  theorem ltList_congr_left (ok : EnvOk env) (num : Bool) (xs : List Val) : ∀ ys zs : List Val,
+      comparableList env num xs = true → comparableList env num ys = true →
+      comparableList env num zs = true → eqList xs ys = true →
+      ltList env xs zs = ltList env ys zs := by
+    intro ys zs hx hy hz h
+    cases xs with
+    | nil =>
+      cases ys with
+      | nil => rfl
+      | cons y ys => simp [eqList] at h
+    | cons x xs =>
+      cases ys with
+      | nil => simp [eqList] at h
+      | cons y ys =>
+        cases zs with
+        | nil => rfl
+        | cons z zs =>
+          simp only [comparableList, Bool.and_eq_true] at hx hy hz
+          simp only [eqList, Bool.and_eq_true] at h
+          simp only [ltList, eq_congr_left ok num z hx.1 hy.1 hz.1 h.1,
+            lt_congr_left ok num x y z hx.1 hy.1 hz.1 h.1,
+            ltList_congr_left ok num xs ys zs hx.2 hy.2 hz.2 h.2]
+  termination_by structural xs
+  theorem ltItems_congr_left (ok : EnvOk env) (num : Bool) (sh : Option (List Atom)) (xs : List (Atom × Val)) :
+      ∀ ys zs : List (Atom × Val),
+      keysOk env sh xs = true → comparableItems env num xs = true →
+      keysOk env sh ys = true → comparableItems env num ys = true →
+      comparableItems env num zs = true → eqD xs ys = true →
+      ltItems env xs zs = ltItems env ys zs := by
+    intro ys zs ax hx ay hy hz h
+    cases xs with
+    | nil =>
+      cases ys with
+      | nil => rfl
+      | cons q ys => rw [eqD_nil_cons] at h; cases h
+    | cons p xs =>
+      cases ys with
+      | nil => rw [eqD_cons_nil] at h; cases h
+      | cons q ys =>
+        cases zs with
+        | nil => rfl
+        | cons r zs =>
+          obtain ⟨k, v⟩ := p
+          obtain ⟨k', w⟩ := q
+          obtain ⟨k'', u⟩ := r
+          simp only [comparableItems, Bool.and_eq_true] at hx hy hz
+          obtain ⟨e1, e2, e3⟩ := eqD_cons_inv ok ax ay h
+          simp only [ltItems, atomEq_congr_left k'' e1, atomLt_congr_left k'' e1,
+            eq_congr_left ok num u hx.1 hy.1 hz.1 e2,
+            lt_congr_left ok num v w u hx.1 hy.1 hz.1 e2,
+            ltItems_congr_left ok num (shTail sh) xs ys zs (keysOk_tail ax) hx.2 (keysOk_tail ay) hy.2 hz.2 e3]
+  termination_by structural xs
+end
+
+/-- … and in its right argument. -/
+theorem lt_congr_right (ok : EnvOk env) (num : Bool) (x y z : Val)
+    (hx : comparable env num x = true) (hy : comparable env num y = true)
+    (hz : comparable env num z = true) (h : eq y z = true) : lt env x y = lt env x z := by
+  have t1 := (tri ok num x y hx hy).1
+  have t2 := (tri ok num x z hx hz).1
+  rw [← eq_congr_right ok num x hx hy hz h, ← lt_congr_left ok num y z x hy hz hx h] at t2
+  exact Tri.det t1 t2
+
+end Pg.C06
+
+namespace Pg.C06
+variable {env : Env}
+
+/-! ### Transitivity of `lt` -/
+
+theorem lex_trans {exy eyz exz : Bool} {lxy lyz lxz rxy ryz rxz : Except Err Bool}
+    (A : exy = true → eyz = true → exz = true)
+    (CL : exy = true → exz = eyz ∧ lxz = lyz)
+    (CR : eyz = true → exz = exy ∧ lxz = lxy)
+    (D : exy = false → eyz = false → lxy = .ok true → lyz = .ok true → lxz = .ok true ∧ exz = false)
+    (T : rxy = .ok true → ryz = .ok true → rxz = .ok true)
+    (h1 : (if exy = true then rxy else lxy) = .ok true)
+    (h2 : (if eyz = true then ryz else lyz) = .ok true) :
+    (if exz = true then rxz else lxz) = .ok true := by
+  cases exy <;> cases eyz <;> simp at h1 h2
+  · obtain ⟨d1, d2⟩ := D rfl rfl h1 h2
+    simp [d1, d2]
+  · obtain ⟨c1, c2⟩ := CR rfl
+    simp [c1, c2, h1]
+  · obtain ⟨c1, c2⟩ := CL rfl
+    simp [c1, c2, h2]
+  · simp [A rfl rfl, T h1 h2]
+
+theorem eq_false_of_lt (ok : EnvOk env) (num : Bool) {x z : Val}
+    (hx : comparable env num x = true) (hz : comparable env num z = true)
+    (h : lt env x z = .ok true) : eq x z = false := by
+  rcases (tri ok num x z hx hz).1 with ⟨_, h2, _⟩ | ⟨h1, _, _⟩ | ⟨h1, _, _⟩
+  · exact h2
+  · rw [h] at h1; cases h1
+  · rw [h] at h1; cases h1
+
+theorem lt_diff (ok : EnvOk env) {x y : Val} (hk : kindOf x ≠ kindOf y) :
+    lt env x y = .ok (lexLt (rank env x) (rank env y)) :=
+  lt_of_rankCmp (rankCmp_diff ok hk).1
+
+theorem rank_of_kind {x y : Val} (h : kindOf x = kindOf y) : rank env x = rank env y := by
+  rw [rank_eq_kind, rank_eq_kind, h]
+
+mutual
+  theorem lt_trans (ok : EnvOk env) (num : Bool) (x : Val) : ∀ y z : Val,
+      comparable env num x = true → comparable env num y = true → comparable env num z = true →
+      lt env x y = .ok true → lt env y z = .ok true → lt env x z = .ok true := by
+    intro y z hx hy hz h1 h2
+    by_cases kxy : kindOf x = kindOf y
+    · by_cases kyz : kindOf y = kindOf z
+      · have kxz : kindOf x = kindOf z := kxy.trans kyz
+        cases x with
+        | atom a =>
+          cases y with
+          | atom b => cases z with
+            | atom c =>
+              rw [atomLt_eq_lt] at *
+              exact atomLt_trans ok h1 h2
+            | _ => cases a <;> simp [kindOf, atomKind] at kxz
+          | _ => cases a <;> simp [kindOf, atomKind] at kxy
+        | list s xs =>
+          cases y with
+          | list t ys => cases z with
+            | list u zs =>
+              simp only [lt, rankCmp_same kxy, rankCmp_same kyz, rankCmp_same kxz] at h1 h2 ⊢
+              simp only [comparable] at hx hy hz
+              exact ltList_trans ok num xs ys zs hx hy hz h1 h2
+            | atom c => cases c <;> simp [kindOf, atomKind] at kxz
+            | _ => simp [kindOf] at kxz
+          | atom c => cases c <;> simp [kindOf, atomKind] at kxy
+          | _ => simp [kindOf] at kxy
+        | tuple xs =>
+          cases y with
+          | tuple ys => cases z with
+            | tuple zs =>
+              simp only [lt, rankCmp_same kxy, rankCmp_same kyz, rankCmp_same kxz] at h1 h2 ⊢
+              simp only [comparable] at hx hy hz
+              rw [pySeqLt_eq_ltList (env := env) num _ _ hx hy] at h1
+              rw [pySeqLt_eq_ltList (env := env) num _ _ hy hz] at h2
+              rw [pySeqLt_eq_ltList (env := env) num _ _ hx hz]
+              exact ltList_trans ok num xs ys zs (comparableList_of_tuple xs hx)
+                (comparableList_of_tuple ys hy) (comparableList_of_tuple zs hz) h1 h2
+            | atom c => cases c <;> simp [kindOf, atomKind] at kxz
+            | _ => simp [kindOf] at kxz
+          | atom c => cases c <;> simp [kindOf, atomKind] at kxy
+          | _ => simp [kindOf] at kxy
+        | dict s xs =>
+          cases y with
+          | dict t ys => cases z with
+            | dict u zs =>
+              simp only [lt, rankCmp_same kxy, rankCmp_same kyz, rankCmp_same kxz] at h1 h2 ⊢
+              simp only [comparable, Bool.and_eq_true] at hx hy hz
+              exact ltItems_trans ok num xs ys zs hx.2 hy.2 hz.2 h1 h2
+            | atom c => cases c <;> simp [kindOf, atomKind] at kxz
+            | _ => simp [kindOf] at kxz
+          | atom c => cases c <;> simp [kindOf, atomKind] at kxy
+          | _ => simp [kindOf] at kxy
+        | obj c xs =>
+          cases y with
+          | obj d ys => cases z with
+            | obj e zs =>
+              have hcd : c = d := by simpa [kindOf] using kxy
+              have hce : c = e := by simpa [kindOf] using kxz
+              subst hcd; subst hce
+              simp only [lt, rankCmp_same kxy, rankCmp_same kyz, rankCmp_same kxz, if_true] at h1 h2 ⊢
+              simp only [comparable, Bool.and_eq_true] at hx hy hz
+              exact ltItems_trans ok num xs ys zs hx.2 hy.2 hz.2 h1 h2
+            | _ => simp [kindOf] at kxz
+          | _ => simp [kindOf] at kxy
+      · -- x ~ y (kind), y < z by rank
+        have kxz : kindOf x ≠ kindOf z := kxy ▸ kyz
+        rw [lt_diff ok kyz] at h2
+        rw [lt_diff ok kxz, rank_of_kind kxy]
+        exact h2
+    · rw [lt_diff ok kxy] at h1
+      by_cases kyz : kindOf y = kindOf z
+      · have kxz : kindOf x ≠ kindOf z := kyz ▸ kxy
+        rw [lt_diff ok kxz, ← rank_of_kind kyz]
+        exact h1
+      · rw [lt_diff ok kyz] at h2
+        have h13 : lexLt (rank env x) (rank env z) = true :=
+          lexLt_trans (by simpa using h1) (by simpa using h2)
+        have kxz : kindOf x ≠ kindOf z := by
+          intro hk
+          rw [rank_of_kind hk, lexLt_irrefl] at h13
+          cases h13
+        rw [lt_diff ok kxz, h13]
+  termination_by structural x
+  theorem ltList_trans (ok : EnvOk env) (num : Bool) (xs : List Val) : ∀ ys zs : List Val,
+      comparableList env num xs = true → comparableList env num ys = true →
+      comparableList env num zs = true →
+      ltList env xs ys = .ok true → ltList env ys zs = .ok true → ltList env xs zs = .ok true := by
+    intro ys zs hx hy hz h1 h2
+    cases xs with
+    | nil =>
+      cases ys with
+      | nil => simp [ltList] at h1
+      | cons y ys => cases zs with
+        | nil => simp [ltList] at h2
+        | cons z zs => rfl
+    | cons x xs =>
+      cases ys with
+      | nil => simp [ltList] at h1
+      | cons y ys =>
+        cases zs with
+        | nil => simp [ltList] at h2
+        | cons z zs =>
+          simp only [comparableList, Bool.and_eq_true] at hx hy hz
+          simp only [ltList] at h1 h2 ⊢
+          exact lex_trans
+            (fun a b => eq_trans ok num x y z hx.1 hy.1 hz.1 a b)
+            (fun a => ⟨eq_congr_left ok num z hx.1 hy.1 hz.1 a, lt_congr_left ok num x y z hx.1 hy.1 hz.1 a⟩)
+            (fun a => ⟨(eq_congr_right ok num x hx.1 hy.1 hz.1 a).symm,
+                       (lt_congr_right ok num x y z hx.1 hy.1 hz.1 a).symm⟩)
+            (fun _ _ a b =>
+              have l := lt_trans ok num x y z hx.1 hy.1 hz.1 a b
+              ⟨l, eq_false_of_lt ok num hx.1 hz.1 l⟩)
+            (fun a b => ltList_trans ok num xs ys zs hx.2 hy.2 hz.2 a b)
+            h1 h2
+  termination_by structural xs
+  theorem ltItems_trans (ok : EnvOk env) (num : Bool) (xs : List (Atom × Val)) :
+      ∀ ys zs : List (Atom × Val),
+      comparableItems env num xs = true → comparableItems env num ys = true →
+      comparableItems env num zs = true →
+      ltItems env xs ys = .ok true → ltItems env ys zs = .ok true → ltItems env xs zs = .ok true := by
+    intro ys zs hx hy hz h1 h2
+    cases xs with
+    | nil =>
+      cases ys with
+      | nil => simp [ltItems] at h1
+      | cons q ys => cases zs with
+        | nil => simp [ltItems] at h2
+        | cons r zs => rfl
+    | cons p xs =>
+      cases ys with
+      | nil => simp [ltItems] at h1
+      | cons q ys =>
+        cases zs with
+        | nil => simp [ltItems] at h2
+        | cons r zs =>
+          obtain ⟨k, v⟩ := p
+          obtain ⟨k', w⟩ := q
+          obtain ⟨k'', u⟩ := r
+          simp only [comparableItems, Bool.and_eq_true] at hx hy hz
+          simp only [ltItems] at h1 h2 ⊢
+          -- outer level: keys; inner level: values, then the tails
+          refine lex_trans (exy := atomEq k k') (eyz := atomEq k' k'') (exz := atomEq k k'')
+            (lxy := atomLt env k k') (lyz := atomLt env k' k'') (lxz := atomLt env k k'')
+            (fun a b => atomEq_trans a b)
+            (fun a => ⟨atomEq_congr_left k'' a, atomLt_congr_left k'' a⟩)
+            (fun a => ⟨(atomEq_congr_right k a).symm, (atomLt_congr_right k a).symm⟩)
+            (fun _ _ a b =>
+              have l := atomLt_trans ok a b
+              ⟨l, (atom_ne_of_lt ok l).1⟩)
+            ?_ h1 h2
+          intro g1 g2
+          exact lex_trans
+            (fun a b => eq_trans ok num v w u hx.1 hy.1 hz.1 a b)
+            (fun a => ⟨eq_congr_left ok num u hx.1 hy.1 hz.1 a, lt_congr_left ok num v w u hx.1 hy.1 hz.1 a⟩)
+            (fun a => ⟨(eq_congr_right ok num v hx.1 hy.1 hz.1 a).symm,
+                       (lt_congr_right ok num v w u hx.1 hy.1 hz.1 a).symm⟩)
+            (fun _ _ a b =>
+              have l := lt_trans ok num v w u hx.1 hy.1 hz.1 a b
+              ⟨l, eq_false_of_lt ok num hx.1 hz.1 l⟩)
+            (fun a b => ltItems_trans ok num xs ys zs hx.2 hy.2 hz.2 a b)
+            g1 g2
   termination_by structural xs
 end
 
